@@ -55,6 +55,8 @@ type c04Kind struct {
 	mark              string // replacement for a literal element in layout (i)
 	markX             string // replacement for the metavariable element in layout (i)
 	oneLine           bool   // supports the single-line layout (ii)
+	noCtx             bool   // the list cannot be written with one element per line (return / case / assignment lists)
+	minLen            int    // shortest list the syntax allows
 }
 
 func c04Kinds() []c04Kind {
@@ -83,6 +85,24 @@ func c04Kinds() []c04Kind {
 		{id: "stmts-funcbody", kind: "decl", lit: map[string]string{"a": "a()", "b": "b.c = 1", "c": "if g(1) { a() }"}, mvar: "x()", meta: model.MetaVar{Name: "x", Kind: "identifier"},
 			dots: "DOTS_%d", sep: "; ", open: "func f() {", close: "}", openPlus: "func mark() {", eol: "", mark: "mark()", markX: "mark(x)", oneLine: true,
 			fileOpen: "package p\n\nfunc f() {", fileEnd: "}\n"},
+		{id: "return-list", kind: "stmts", lit: map[string]string{"a": "a", "b": "b.c", "c": "g(1)"}, mvar: "x", meta: model.MetaVar{Name: "x", Kind: "expression"},
+			dots: "DOTS_%d", sep: ", ", open: "return ", close: "", openPlus: "return mark, ", eol: ",", mark: "mark", markX: "mark(x)", oneLine: true, noCtx: true,
+			fileOpen: "package p\n\nfunc _() {\n\tpre()\n\treturn ", fileEnd: "\n}\n"},
+		{id: "case-list", kind: "stmts", lit: map[string]string{"a": "a", "b": "b.c", "c": "g(1)"}, mvar: "x", meta: model.MetaVar{Name: "x", Kind: "expression"},
+			dots: "DOTS_%d", sep: ", ", open: "switch v {\ncase ", close: ":\n\thit()\n}", openPlus: "switch v {\ncase mark, ", eol: ",", mark: "mark", markX: "mark(x)", oneLine: true, noCtx: true, minLen: 1,
+			fileOpen: "package p\n\nfunc _() {\n\tswitch v {\n\tcase ", fileEnd: ":\n\t\thit()\n\t}\n}\n"},
+		{id: "assign-lhs", kind: "stmts", lit: map[string]string{"a": "a", "b": "b.c", "c": "m[1]"}, mvar: "x", meta: model.MetaVar{Name: "x", Kind: "expression"},
+			dots: "DOTS_%d", sep: ", ", open: "", close: " = f()", openPlus: "mark, ", eol: ",", mark: "mark", markX: "mark[x]", oneLine: true, noCtx: true, minLen: 1,
+			fileOpen: "package p\n\nfunc _() {\n\t", fileEnd: " = f()\n}\n"},
+		{id: "type-args", kind: "expr", lit: map[string]string{"a": "A", "b": "b.C", "c": "[]int"}, mvar: "x", meta: model.MetaVar{Name: "x", Kind: "expression"},
+			dots: "DOTS_%d", sep: ", ", open: "gen[", close: "](1)", openPlus: "mark[", eol: ",", mark: "Mark", markX: "*x", oneLine: true, minLen: 1,
+			fileOpen: "package p\n\nvar _ = gen[", fileEnd: "](1)\n"},
+		{id: "iface-methods", kind: "decl", lit: map[string]string{"a": "a()", "b": "b(int) error", "c": "C"}, mvar: "x()", meta: model.MetaVar{Name: "x", Kind: "identifier"},
+			dots: "DOTS_%d", sep: "; ", open: "type I interface {", close: "}", openPlus: "type Mark interface {", eol: "", mark: "mark()", markX: "x(mark)", oneLine: true,
+			fileOpen: "package p\n\ntype I interface {", fileEnd: "}\n"},
+		{id: "funclit-params", kind: "expr", lit: map[string]string{"a": "a int", "b": "b string", "c": "c ...bool"}, mvar: "x int", meta: model.MetaVar{Name: "x", Kind: "identifier"},
+			dots: "_ DOTS_%d", sep: ", ", open: "h(func(", close: ") {})", openPlus: "mark(func(", eol: ",", mark: "mark int", markX: "x mark", oneLine: true,
+			fileOpen: "package p\n\nvar _ = h(func(", fileEnd: ") {})\n"},
 		{id: "stmts-ifbody", kind: "stmts", lit: map[string]string{"a": "a()", "b": "b.c = 1", "c": "for { a() }"}, mvar: "x()", meta: model.MetaVar{Name: "x", Kind: "identifier"},
 			dots: "DOTS_%d", sep: "; ", open: "if cond {", close: "}", eol: "", mark: "mark()", markX: "mark(x)",
 			fileOpen: "package p\n\nfunc _() {\n\tpre()\n\tif cond {", fileEnd: "}\n\tpost()\n}\n"},
@@ -134,20 +154,27 @@ func c04Gen(tier string, emit func(any)) {
 	pl, ll := c04Bounds(tier)
 	pats := c04Patterns(pl)
 	lists := c04Lists(ll)
-	for _, k := range c04Kinds() {
-		for _, pat := range pats {
+	for ki, k := range c04Kinds() {
+		kpats := pats
+		if ki >= 10 && tier != "thorough" {
+			kpats = c04Patterns(pl - 1) // the six later list kinds run one pattern length lower in the quick tier
+		}
+		for _, pat := range kpats {
 			if k.kind == "stmts" && (pat[0] == "D" || pat[len(pat)-1] == "D") && false {
 				continue
 			}
 			for _, ch := range c04Changes(k, pat) {
 				for _, l := range lists {
+					if len(l) < k.minLen {
+						continue
+					}
 					var els []string
 					for _, e := range l {
 						els = append(els, k.lit[e])
 					}
 					sep := k.sep
 					file := k.fileOpen + strings.Join(els, sep) + k.fileEnd
-					if strings.HasPrefix(k.id, "stmts") || k.id == "struct-fields" {
+					if strings.HasPrefix(k.id, "stmts") || k.id == "struct-fields" || k.id == "iface-methods" {
 						file = k.fileOpen + "\n" + strings.Join(els, "\n") + "\n" + k.fileEnd
 					}
 					emit(&MCase{Change: ch.c, File: file, Tag: fmt.Sprintf("%s/%s/%s", k.id, ch.layout, strings.Join(pat, ""))})
@@ -181,7 +208,7 @@ func c04Changes(k c04Kind, pat []string) []c04Change {
 	}
 	// layout (i): every element on its own line; elisions and unchanged elements are context lines;
 	// the first explicit element is replaced
-	{
+	if !k.noCtx {
 		var lines []string
 		for _, ln := range strings.Split(k.open, "\n") {
 			lines = append(lines, " "+ln)
@@ -213,6 +240,9 @@ func c04Changes(k c04Kind, pat []string) []c04Change {
 	// layouts (i'): as (i) but the explicit element is kept and a new one inserted after it /
 	// the explicit element is deleted without replacement
 	for _, variant := range []string{"ctx-insert", "ctx-delete"} {
+		if k.noCtx {
+			break
+		}
 		var lines []string
 		for _, ln := range strings.Split(k.open, "\n") {
 			lines = append(lines, " "+ln)
@@ -253,10 +283,17 @@ func c04Changes(k c04Kind, pat []string) []c04Change {
 			els = append(els, elem(e, 1))
 		}
 		body := strings.Join(els, k.sep)
-		minus := "-" + k.open + body + k.close
-		plus := "+" + k.openPlus + body + k.close
-		out = append(out, c04Change{&model.Change{Meta: meta, Kind: k.kind, Lines: model.L(minus, plus)}, "one-minus-first"})
-		out = append(out, c04Change{&model.Change{Meta: meta, Kind: k.kind, Lines: model.L(plus, minus)}, "one-plus-first"})
+		tagged := func(tag, text string) []string {
+			var ls []string
+			for _, ln := range strings.Split(text, "\n") {
+				ls = append(ls, tag+ln)
+			}
+			return ls
+		}
+		minus := tagged("-", k.open+body+k.close)
+		plus := tagged("+", k.openPlus+body+k.close)
+		out = append(out, c04Change{&model.Change{Meta: meta, Kind: k.kind, Lines: model.L(append(append([]string{}, minus...), plus...)...)}, "one-minus-first"})
+		out = append(out, c04Change{&model.Change{Meta: meta, Kind: k.kind, Lines: model.L(append(append([]string{}, plus...), minus...)...)}, "one-plus-first"})
 	}
 	return out
 }
